@@ -14,6 +14,7 @@ import (
 	"perkeep.org/pkg/blobserver/memory"
 	"perkeep.org/pkg/index"
 	"perkeep.org/pkg/sorted"
+	"perkeep.org/pkg/types/camtypes"
 
 	"verif.local/harness/ev"
 	"verif.local/harness/hw"
@@ -118,6 +119,24 @@ func runJob(r *ev.Run, j job, root string, sampleMu *sync.Mutex, sampled *int) {
 			}
 		}
 		if (pos+1)%j.every != 0 && pos != len(j.order)-1 {
+			// light probe at every other prefix: the time orderings of the live corpus (cached,
+			// lazily sorted) against a corpus loaded from the same rows
+			if j.corpus {
+				live.Quiesce()
+				cp, err := hw.CopyKV(kv)
+				if err == nil {
+					if fresh, err := hw.NewIdx(cp, ms, true); err == nil {
+						a := lightProbe(live, j.w)
+						b2 := lightProbe(fresh, j.w)
+						r.Eval(len(a))
+						for _, d := range hw.DiffAnswers(a, b2) {
+							r.Violation("live-vs-reload/corpus/"+method(d)+"/light", fmt.Sprintf("world %s, after %d of %d arrivals: %s", j.wid, pos+1, len(j.order), d),
+								caseRec{CaseID: j.wid, World: j.w.Describe(), Order: j.order, Prefix: pos + 1, Corpus: true, KV: j.kv, Diffs: []string{d}})
+							break
+						}
+					}
+				}
+			}
 			continue
 		}
 		live.Quiesce()
@@ -215,8 +234,8 @@ func run(r *ev.Run) {
 		}()
 	}
 	wrng := r.Rand("worlds")
-	nWorlds := r.Pick(24, 120)
-	nOrders := r.Pick(4, 12)
+	nWorlds := r.Pick(72, 240)
+	nOrders := r.Pick(6, 12)
 	kvKinds := []string{"memory"}
 	if r.Thorough() {
 		kvKinds = []string{"memory", "leveldb", "kv", "sqlite"}
@@ -232,6 +251,11 @@ func run(r *ev.Run) {
 			wo.Permanodes = 2
 		case 3:
 			wo.Small = true
+		case 5:
+			wo.ContentTime = true
+			wo.Permanodes = 2
+			wo.MaxClaims = 1
+			wo.NoFiles = true
 		}
 		w := hw.GenWorld(wrng, wo)
 		w.Blobs = w.DepOrder()
@@ -262,4 +286,23 @@ func run(r *ev.Run) {
 	r.Require("modes", "corpus", "nocorpus")
 	r.Require("moments", "with-pending-dependencies", "no-pending")
 	r.Require("world_features", "delete-of-permanode", "delete-of-claim", "delete-of-delete", "directory", "nested-bytes")
+}
+
+
+// lightProbe asks only the time-ordering questions (cheap enough for every prefix).
+func lightProbe(x *hw.Idx, w *hw.World) []hw.Answer {
+	var out []hw.Answer
+	x.Index.RLock()
+	defer x.Index.RUnlock()
+	c := x.Corpus
+	var lm, cr []string
+	c.EnumeratePermanodesLastModified(func(bm camtypes.BlobMeta) bool { lm = append(lm, bm.Ref.String()); return true })
+	c.EnumeratePermanodesCreated(func(bm camtypes.BlobMeta) bool { cr = append(cr, bm.Ref.String()); return true }, true)
+	out = append(out, hw.Answer{Q: "Corpus.EnumeratePermanodesLastModified", A: strings.Join(lm, " ")}, hw.Answer{Q: "Corpus.EnumeratePermanodesCreated", A: strings.Join(cr, " ")})
+	for _, pn := range w.Permanodes {
+		t, ok := c.PermanodeAnyTime(pn)
+		m, ok2 := c.PermanodeModtime(pn)
+		out = append(out, hw.Answer{Q: "Corpus.PermanodeAnyTime/Modtime " + pn.String(), A: fmt.Sprint(ok, t.UTC(), ok2, m.UTC())})
+	}
+	return out
 }
